@@ -212,3 +212,11 @@ RULES = [
     ("C16.b", "who may call Model::init / add_model / recv", rule_b),
     ("C16.c", "qualified names; one name value for context, name table and observer", rule_c),
 ]
+
+
+def rule_mustpass(ctx):
+    from . import mustpass
+    mustpass.check(ctx, ['init-runs'])
+
+
+RULES.append(("C16.e", "must-pass-through: no path around the effects this property rests on (added fast paths / early returns)", rule_mustpass))
